@@ -122,6 +122,33 @@ CLAIMS = {
             'spawned task inherits its creator\'s stack. Tied to the code by ~900 real multi-process runs per quick run with current() sampled in every function and hook.',
             'DESIGN.md section 4 C18', COMMON_NOTE + 'PARTIAL: CPython contextvars copy-on-task-creation is a hypothesis; the schedule is an input (nothing is proved about which schedules asyncio produces).',
             'Coq proof: stack = inherited ++ open scopes invariant over all schedules + vm_compute correspondence'),
+
+    'C04': ('Machine-checked proof (Coq) over M1: kill() requested between any two loop callbacks of ANY run (any program, listener scripts, schedule; no bound) '
+            'returns a result and never raises (Life/LifeBook.v: an invariant over all model operations, re-entrant listeners included); by symbolic execution '
+            'of the model on every quiet world: between steps the process is KILLED when kill() returns True, the text is recorded, the future raises '
+            'KilledError with it and the process is closed; while a step is in flight a pending kill action is armed as the interrupt action and returned; a '
+            'killed (terminated) process is never revived (C01). The races named in the property (kill/pause/play inside one step, pause then kill in a wait, '
+            'future cancellation) are evaluated on the model. Tied to the code by ~2.6k real runs per quick run: every sequence of <= 3 requests at every '
+            'callback boundary, inside steps and from listeners, each closed by a probing kill.',
+            'DESIGN.md section 4 C04', COMMON_NOTE + 'PARTIAL: "the armed kill survives every later request until the step yields" is not a theorem over all schedules; it is what the correspondence + oracle check for <= 3 requests. Two known findings (KNOWN_FINDINGS.txt): D8 kill issued by a listener during the end-of-step transition, D3b future cancelled while a synchronous chain completes.',
+            'Coq proof: never-raises invariant over all runs (wp calculus) + symbolic execution of kill on quiet worlds + vm_compute correspondence'),
+    'C05': ('Machine-checked proof (Coq) over M1, for EVERY run (any program, listener scripts, schedule of pause/play/resume/kill/fail/late callbacks/ticks; no '
+            'bound): every step function or continuation that starts and every sample taken by code inside a step (also after an await) sees the process not '
+            'paused; pause() and play() never raise; between loop callbacks a process whose step is in flight is not paused (a pause takes effect at a step '
+            'boundary). By symbolic execution on every quiet world: pause() between steps pauses at once with the message as status and the previous status '
+            'remembered; play() un-pauses and restores exactly that status. The uninterrupted reference run of command programs is the reference interpreter '
+            '(C13). Tied to the code by ~2.5k real runs per quick run: every selection of <= 3 pause/play/resume requests per loop iteration at every boundary, '
+            'compared step by step with the uninterrupted run.',
+            'DESIGN.md section 4 C05', COMMON_NOTE + 'PARTIAL: transparency (same steps, outputs, result as the uninterrupted run for every placement) is proved for the uninterrupted run itself and checked on implementation + model for the generated placements; it is not a theorem over all placements.',
+            'Coq proof: trace-flag + stepping/paused invariant over all runs (wp calculus) + symbolic execution of pause/play + vm_compute correspondence'),
+    'C06': ('Machine-checked proof (Coq) over M1: resume(v) stores exactly v; the first resume wins; a resume arriving after an interruption that execute() has not '
+            'dealt with is kept in a fresh waiting future (the race of the property); the stored value is forwarded as the only argument of the continuation; from '
+            'every quiet world a wait holding a wake-up continues with exactly that value, and resume + one loop callback on a parked process runs the whole '
+            'following chain of the reference interpreter. The interleavings named in the property (pause;resume in one iteration, pause;play then resume, repeated '
+            'pause/play pairs) are evaluated on the model. Tied to the code by ~2.4k real runs per quick run: all orders of <= 3 events from {resume v, resume w, '
+            'resume(), pause, play} at every boundary.',
+            'DESIGN.md section 4 C06', COMMON_NOTE + 'PARTIAL: "never WAITING for ever under every interleaving" is checked for <= 3 events per schedule on implementation + model, not proved for all schedules; the awaited-futures half is C10 (no pause there) plus the implementation oracle.',
+            'Coq proof: equations + symbolic execution of the wake-up path on quiet worlds + vm_compute correspondence'),
 }
 
 NOT_YET = 'check under construction in this build session (model/theorems not committed yet); see DESIGN.md section 4'
